@@ -1,1 +1,1200 @@
-fn main() { eprintln!("engine not built yet"); std::process::exit(2); }
+//! C11 — gcd, lcm, egcd (linear Diophantine solver), crt of rlib_gcd.
+//! Form I: exhaustive enumeration of stated finite input spaces on the REAL functions, compared with
+//! references that are written from the definitions (largest common divisor by downward search, smallest
+//! common multiple by upward search, a table of x -> (x mod m1, x mod m2) over [0, lcm) for the CRT) and,
+//! above the table range, with a binary (Stein) gcd plus direct verification of the defining equations.
+//!
+//! Out of the property's domain (skipped and counted): the minimum value of signed types, lcm whose
+//! mathematical value does not fit the type, lcm(0,0) (the code divides by gcd = 0 there), egcd(0,0,c).
+
+use rayon::prelude::*;
+use rlib_num_traits::Integer;
+use std::collections::{BTreeMap, BTreeSet};
+use std::ops::Neg;
+use vcore::*;
+
+// ---------------------------------------------------------------------------------------------
+// integer types under test
+
+/// (negative?, magnitude) — the engine's own representation of an operand or a result.
+type Z = (bool, u128);
+
+fn zs(z: Z) -> String {
+    if z.0 && z.1 > 0 {
+        format!("-{}", z.1)
+    } else {
+        format!("{}", z.1)
+    }
+}
+
+fn zparse(s: &str) -> Option<Z> {
+    let (neg, body) = match s.strip_prefix('-') {
+        Some(r) => (true, r),
+        None => (false, s),
+    };
+    let mag = body.parse::<u128>().ok()?;
+    Some((neg && mag > 0, mag))
+}
+
+trait Ty: Integer + Copy + Send + Sync + 'static {
+    const NAME: &'static str;
+    const SIGNED: bool;
+    const IDX: u64;
+    /// The value with this sign and magnitude, None if it is not representable or is the excluded MIN.
+    fn make(neg: bool, mag: u128) -> Option<Self>;
+    fn split(self) -> Z;
+}
+
+macro_rules! ty_signed {
+    ($t:ty, $i:expr) => {
+        impl Ty for $t {
+            const NAME: &'static str = stringify!($t);
+            const SIGNED: bool = true;
+            const IDX: u64 = $i;
+            fn make(neg: bool, mag: u128) -> Option<Self> {
+                if mag > <$t>::MAX as u128 {
+                    return None;
+                }
+                let v = mag as $t;
+                Some(if neg { -v } else { v })
+            }
+            fn split(self) -> Z {
+                (self < 0, self.unsigned_abs() as u128)
+            }
+        }
+    };
+}
+macro_rules! ty_unsigned {
+    ($t:ty, $i:expr) => {
+        impl Ty for $t {
+            const NAME: &'static str = stringify!($t);
+            const SIGNED: bool = false;
+            const IDX: u64 = $i;
+            fn make(neg: bool, mag: u128) -> Option<Self> {
+                if mag > <$t>::MAX as u128 || (neg && mag > 0) {
+                    return None;
+                }
+                Some(mag as $t)
+            }
+            fn split(self) -> Z {
+                (false, self as u128)
+            }
+        }
+    };
+}
+ty_signed!(i64, 0);
+ty_signed!(i32, 1);
+ty_signed!(i128, 2);
+ty_signed!(i16, 3);
+ty_signed!(i8, 4);
+ty_signed!(isize, 5);
+ty_unsigned!(u64, 6);
+ty_unsigned!(u32, 7);
+ty_unsigned!(u128, 8);
+ty_unsigned!(u16, 9);
+ty_unsigned!(u8, 10);
+ty_unsigned!(usize, 11);
+
+macro_rules! dispatch_any {
+    ($ty:expr, $f:ident, $($a:expr),*) => {
+        match $ty {
+            "i8" => $f::<i8>($($a),*), "i16" => $f::<i16>($($a),*), "i32" => $f::<i32>($($a),*),
+            "i64" => $f::<i64>($($a),*), "i128" => $f::<i128>($($a),*), "isize" => $f::<isize>($($a),*),
+            "u8" => $f::<u8>($($a),*), "u16" => $f::<u16>($($a),*), "u32" => $f::<u32>($($a),*),
+            "u64" => $f::<u64>($($a),*), "u128" => $f::<u128>($($a),*), "usize" => $f::<usize>($($a),*),
+            other => bad_replay(&format!("unknown integer type {other}")),
+        }
+    };
+}
+macro_rules! dispatch_signed {
+    ($ty:expr, $f:ident, $($a:expr),*) => {
+        match $ty {
+            "i8" => $f::<i8>($($a),*), "i16" => $f::<i16>($($a),*), "i32" => $f::<i32>($($a),*),
+            "i64" => $f::<i64>($($a),*), "i128" => $f::<i128>($($a),*), "isize" => $f::<isize>($($a),*),
+            other => bad_replay(&format!("{other} is not a signed integer type")),
+        }
+    };
+}
+
+fn bad_replay(msg: &str) -> ! {
+    println!("MACHINERY-FAILURE engine=gcd malformed replay case: {msg}");
+    eprintln!("MACHINERY-FAILURE engine=gcd malformed replay case: {msg}");
+    std::process::exit(2)
+}
+
+/// Every value of T with magnitude <= limit (MIN excluded), simplest first: 0, 1, -1, 2, -2, …
+fn box_vals<T: Ty>(limit: u128) -> Vec<T> {
+    let mut v = vec![];
+    for m in 0..=limit {
+        match T::make(false, m) {
+            Some(x) => v.push(x),
+            None => break,
+        }
+        if m > 0 && T::SIGNED {
+            if let Some(x) = T::make(true, m) {
+                v.push(x);
+            }
+        }
+    }
+    v
+}
+
+/// The given magnitudes (ascending, distinct) with both signs where the type has them.
+fn signed_vals<T: Ty>(mags: &[u128]) -> Vec<T> {
+    let mut v = vec![];
+    for &m in mags {
+        if let Some(x) = T::make(false, m) {
+            v.push(x);
+            if m > 0 && T::SIGNED {
+                v.push(T::make(true, m).unwrap());
+            }
+        }
+    }
+    v
+}
+
+// ---------------------------------------------------------------------------------------------
+// references
+
+/// gcd by definition: the largest d dividing both (0 for (0,0)).
+fn def_gcd(x: u64, y: u64) -> u64 {
+    if x == 0 && y == 0 {
+        return 0;
+    }
+    let mut d = x.max(y);
+    loop {
+        if x % d == 0 && y % d == 0 {
+            return d;
+        }
+        d -= 1;
+    }
+}
+
+/// lcm by definition: the smallest positive multiple of x that y divides (0 if an operand is 0).
+fn def_lcm(x: u64, y: u64) -> u64 {
+    if x == 0 || y == 0 {
+        return 0;
+    }
+    let mut m = x;
+    loop {
+        if m % y == 0 {
+            return m;
+        }
+        m += x;
+    }
+}
+
+/// Binary gcd (shifts and subtractions only) — used above the range of the definition tables.
+fn stein(mut x: u128, mut y: u128) -> u128 {
+    if x == 0 {
+        return y;
+    }
+    if y == 0 {
+        return x;
+    }
+    let s = (x | y).trailing_zeros();
+    x >>= x.trailing_zeros();
+    loop {
+        y >>= y.trailing_zeros();
+        if x > y {
+            std::mem::swap(&mut x, &mut y);
+        }
+        y -= x;
+        if y == 0 {
+            return x << s;
+        }
+    }
+}
+
+fn ref_gcd(x: u128, y: u128) -> u128 {
+    if x.max(y) <= 1 << 16 {
+        def_gcd(x as u64, y as u64) as u128
+    } else {
+        stein(x, y)
+    }
+}
+
+/// Mathematical lcm of two magnitudes; None if it exceeds u128.
+fn ref_lcm(x: u128, y: u128) -> Option<u128> {
+    if x == 0 || y == 0 {
+        return Some(0);
+    }
+    (x / ref_gcd(x, y)).checked_mul(y)
+}
+
+struct Tables {
+    n: usize,
+    g: Vec<u32>,
+    l: Vec<u32>,
+}
+
+impl Tables {
+    fn build(n: usize) -> Tables {
+        let rows: Vec<(Vec<u32>, Vec<u32>)> = (0..=n)
+            .into_par_iter()
+            .map(|x| {
+                let g = (0..=n).map(|y| def_gcd(x as u64, y as u64) as u32).collect();
+                let l = (0..=n).map(|y| def_lcm(x as u64, y as u64) as u32).collect();
+                (g, l)
+            })
+            .collect();
+        let mut g = vec![];
+        let mut l = vec![];
+        for (a, b) in rows {
+            g.extend(a);
+            l.extend(b);
+        }
+        Tables { n, g, l }
+    }
+    fn g(&self, x: u128, y: u128) -> u128 {
+        self.g[x as usize * (self.n + 1) + y as usize] as u128
+    }
+    fn l(&self, x: u128, y: u128) -> u128 {
+        self.l[x as usize * (self.n + 1) + y as usize] as u128
+    }
+}
+
+const P61: u128 = (1u128 << 61) - 1;
+
+/// Exact decision of a*x + b*y == c for |a|,|b|,|c| <= 2^21 and any 128-bit x, y.
+fn lin_eq(a: Z, b: Z, c: Z, x: Z, y: Z) -> (bool, String) {
+    let lim = 1u128 << 100;
+    let si = |z: Z| -> i128 {
+        if z.0 {
+            -(z.1 as i128)
+        } else {
+            z.1 as i128
+        }
+    };
+    if x.1 < lim && y.1 < lim && a.1 <= 1 << 21 && b.1 <= 1 << 21 {
+        let v = si(a) * si(x) + si(b) * si(y);
+        return (v == si(c), format!("{v}"));
+    }
+    assert!(a.1 <= 1 << 21 && b.1 <= 1 << 21 && c.1 <= 1 << 21, "lin_eq precondition");
+    // V = a*x + b*y - c has |V| < 2^150; V == 0 iff V ≡ 0 mod 2^128 and mod the prime 2^61-1
+    let tw = |z: Z| -> u128 {
+        if z.0 {
+            z.1.wrapping_neg()
+        } else {
+            z.1
+        }
+    };
+    let m128 = tw(a).wrapping_mul(tw(x)).wrapping_add(tw(b).wrapping_mul(tw(y))).wrapping_sub(tw(c)) == 0;
+    let rp = |z: Z| -> u128 {
+        let r = z.1 % P61;
+        if z.0 && r > 0 {
+            P61 - r
+        } else {
+            r
+        }
+    };
+    let mp = (rp(a) * rp(x) + rp(b) * rp(y)) % P61 == rp(c);
+    (m128 && mp, "a value of more than 100 bits".to_string())
+}
+
+// ---------------------------------------------------------------------------------------------
+// comparison of ONE call of the real code with the expected answer
+
+fn cmp_gcd<T: Ty>(a: T, b: T, exp: u128) -> Result<(), String> {
+    match catch(|| rlib_gcd::gcd(a, b)) {
+        Err(p) => Err(format!("gcd::<{}>({a}, {b}) panicked ({p}); the greatest common divisor is {exp}", T::NAME)),
+        Ok(r) => {
+            let (n, m) = r.split();
+            if (n && m > 0) || m != exp {
+                Err(format!("gcd::<{}>({a}, {b}) returned {r}; the greatest common divisor is {exp}", T::NAME))
+            } else {
+                Ok(())
+            }
+        }
+    }
+}
+
+fn cmp_lcm<T: Ty>(a: T, b: T, exp: u128) -> Result<(), String> {
+    match catch(|| rlib_gcd::lcm(a, b)) {
+        Err(p) => Err(format!("lcm::<{}>({a}, {b}) panicked ({p}); the least common multiple is {exp}", T::NAME)),
+        Ok(r) => {
+            let (n, m) = r.split();
+            if (n && m > 0) || m != exp {
+                Err(format!("lcm::<{}>({a}, {b}) returned {r}; the least common multiple is {exp} (fits the type)", T::NAME))
+            } else {
+                Ok(())
+            }
+        }
+    }
+}
+
+fn cmp_egcd<T: Ty>(a: T, b: T, c: T, g: u128) -> Result<(), String> {
+    let solvable = c.split().1 % g == 0;
+    match catch(|| rlib_gcd::egcd(a, b, c)) {
+        Err(p) => Err(format!(
+            "egcd::<{}>({a}, {b}, {c}) panicked ({p}); gcd = {g} {} c",
+            T::NAME,
+            if solvable { "divides" } else { "does not divide" }
+        )),
+        Ok(None) => {
+            if solvable {
+                Err(format!("egcd::<{}>({a}, {b}, {c}) returned None although gcd(a,b) = {g} divides c", T::NAME))
+            } else {
+                Ok(())
+            }
+        }
+        Ok(Some((x, y))) => {
+            if !solvable {
+                return Err(format!("egcd::<{}>({a}, {b}, {c}) returned Some(({x}, {y})) although gcd(a,b) = {g} does not divide c", T::NAME));
+            }
+            let (ok, val) = lin_eq(a.split(), b.split(), c.split(), x.split(), y.split());
+            if ok {
+                Ok(())
+            } else {
+                Err(format!("egcd::<{}>({a}, {b}, {c}) returned ({x}, {y}) but a*x + b*y = {val}, not {c}", T::NAME))
+            }
+        }
+    }
+}
+
+/// `g`, `l`: gcd and lcm of the moduli.  `exact`: the solution found by exhaustive search over [0, l)
+/// when that search was done (Some(None) = the search found none).
+fn cmp_crt<T: Ty + Neg<Output = T>>(a1: T, m1: T, a2: T, m2: T, g: u128, l: u128, exact: Option<Option<u128>>) -> Result<(), String> {
+    let (r1, r2, mm1, mm2) = (a1.split().1, a2.split().1, m1.split().1, m2.split().1);
+    let diff = if r1 > r2 { r1 - r2 } else { r2 - r1 };
+    let compat = diff % g == 0;
+    let head = format!("crt::<{}>(a1={a1}, m1={m1}, a2={a2}, m2={m2})", T::NAME);
+    match catch(|| rlib_gcd::crt(a1, m1, a2, m2)) {
+        Err(p) => Err(format!("{head} panicked ({p}); the congruences are {} (gcd of the moduli {g})", if compat { "compatible" } else { "incompatible" })),
+        Ok(None) => {
+            if compat {
+                Err(format!("{head} returned None although a1 ≡ a2 (mod gcd = {g}); a solution exists in [0, {l})"))
+            } else {
+                Ok(())
+            }
+        }
+        Ok(Some(x)) => {
+            if !compat {
+                return Err(format!("{head} returned Some({x}) although a1 ≢ a2 (mod gcd = {g}): no solution exists"));
+            }
+            let (xn, xm) = x.split();
+            if xn && xm > 0 {
+                return Err(format!("{head} returned {x}, which is negative; the solution must lie in [0, {l})"));
+            }
+            if xm >= l {
+                return Err(format!("{head} returned {x}, outside [0, lcm = {l})"));
+            }
+            if xm % mm1 != r1 || xm % mm2 != r2 {
+                return Err(format!("{head} returned {x}: x mod m1 = {}, x mod m2 = {}", xm % mm1, xm % mm2));
+            }
+            if let Some(e) = exact {
+                if e != Some(xm) {
+                    return Err(format!("{head} returned {x}; exhaustive search over [0, {l}) gives {e:?}"));
+                }
+            }
+            Ok(())
+        }
+    }
+}
+
+// ---------------------------------------------------------------------------------------------
+// counters and first-failure book-keeping
+
+const NAMES: &[&str] = &[
+    "gcd_evaluations",
+    "lcm_evaluations",
+    "egcd_evaluations",
+    "crt_evaluations",
+    "skipped_lcm_result_does_not_fit_type",
+    "skipped_lcm_zero_zero",
+    "skipped_intermediates_may_not_fit_type",
+    "nontrivial",
+    "gcd_lcm_with_negative_operand",
+    "gcd_lcm_with_zero_operand",
+    "gcd_lcm_beyond_small_box",
+    "egcd_expected_some",
+    "egcd_expected_none",
+    "egcd_zero_coefficient_expected_some",
+    "egcd_zero_coefficient_expected_none",
+    "egcd_with_negative_operand",
+    "egcd_beyond_small_cube",
+    "crt_expected_some",
+    "crt_expected_none",
+    "crt_compatible_with_noncoprime_moduli",
+    "crt_expected_solution_is_lcm_minus_1",
+    "crt_nested_or_equal_moduli",
+    "crt_beyond_small_moduli",
+    "reference_inconsistencies",
+];
+const GCD_EV: usize = 0;
+const LCM_EV: usize = 1;
+const EGCD_EV: usize = 2;
+const CRT_EV: usize = 3;
+const SK_LCM_FIT: usize = 4;
+const SK_LCM_00: usize = 5;
+const SK_INTER: usize = 6;
+const NONTRIV: usize = 7;
+const GL_NEG: usize = 8;
+const GL_ZERO: usize = 9;
+const GL_BIG: usize = 10;
+const EG_SOME: usize = 11;
+const EG_NONE: usize = 12;
+const EG_Z_SOME: usize = 13;
+const EG_Z_NONE: usize = 14;
+const EG_NEG: usize = 15;
+const EG_BIG: usize = 16;
+const CRT_SOME: usize = 17;
+const CRT_NONE: usize = 18;
+const CRT_NONCOP: usize = 19;
+const CRT_LAST: usize = 20;
+const CRT_NESTED: usize = 21;
+const CRT_BIG: usize = 22;
+const REF_ERR: usize = 23;
+const NC: usize = 24;
+
+type Key = (u128, u128, u64, u64);
+
+struct Fail {
+    key: Key,
+    v: Violation,
+}
+
+struct Stats {
+    c: [u64; NC],
+    fails: BTreeMap<&'static str, Fail>,
+    gcd_seen: BTreeSet<u128>,
+}
+
+impl Stats {
+    fn new() -> Stats {
+        Stats { c: [0; NC], fails: BTreeMap::new(), gcd_seen: BTreeSet::new() }
+    }
+    fn merge(mut self, o: Stats) -> Stats {
+        for i in 0..NC {
+            self.c[i] += o.c[i];
+        }
+        for (k, f) in o.fails {
+            match self.fails.get(k) {
+                Some(cur) if cur.key <= f.key => {}
+                _ => {
+                    self.fails.insert(k, f);
+                }
+            }
+        }
+        self.gcd_seen.extend(o.gcd_seen);
+        self
+    }
+    /// Keep, per family, the failing case with the smallest key (max magnitude, sum of magnitudes, type, index).
+    fn fail(&mut self, fam: &'static str, ty: &str, args: &[Z], seq: u64, tyidx: u64, summary: String) {
+        let key: Key = (args.iter().map(|z| z.1).max().unwrap_or(0), args.iter().map(|z| z.1).sum(), tyidx, seq);
+        if let Some(cur) = self.fails.get(fam) {
+            if cur.key <= key {
+                return;
+            }
+        }
+        let strs: Vec<String> = args.iter().map(|&z| zs(z)).collect();
+        let sig = format!("{fam}:{ty}({})", strs.join(","));
+        let v = Violation::new(sig, summary, json!({"fn": fam, "ty": ty, "args": strs}));
+        self.fails.insert(fam, Fail { key, v });
+    }
+}
+
+fn nontrivial_pair(x: u128, y: u128) -> bool {
+    if x == 0 || y == 0 {
+        return false;
+    }
+    if x <= u64::MAX as u128 && y <= u64::MAX as u128 {
+        let (x, y) = (x as u64, y as u64);
+        return x % y != 0 && y % x != 0;
+    }
+    x % y != 0 && y % x != 0
+}
+
+// ---------------------------------------------------------------------------------------------
+// gcd / lcm
+
+/// One (a, b) of type T: gcd always, lcm when in domain.  `eg`/`el`: expected gcd and mathematical lcm
+/// (None = exceeds u128).
+fn gcd_lcm_case<T: Ty>(s: &mut Stats, a: T, b: T, eg: u128, el: Option<u128>, seq: u64, track: bool) {
+    let (za, zb) = (a.split(), b.split());
+    let nt = nontrivial_pair(za.1, zb.1) as u64;
+    let neg = (za.0 || zb.0) as u64;
+    let zero = (za.1 == 0 || zb.1 == 0) as u64;
+    s.c[GCD_EV] += 1;
+    s.c[NONTRIV] += nt;
+    s.c[GL_NEG] += neg;
+    s.c[GL_ZERO] += zero;
+    if track {
+        s.gcd_seen.insert(eg);
+    }
+    if let Err(m) = cmp_gcd(a, b, eg) {
+        s.fail("gcd", T::NAME, &[za, zb], seq, T::IDX, m);
+    }
+    if za.1 == 0 && zb.1 == 0 {
+        s.c[SK_LCM_00] += 1;
+        return;
+    }
+    let el = match el {
+        Some(l) if T::make(false, l).is_some() => l,
+        _ => {
+            s.c[SK_LCM_FIT] += 1;
+            return;
+        }
+    };
+    s.c[LCM_EV] += 1;
+    s.c[NONTRIV] += nt;
+    s.c[GL_NEG] += neg;
+    s.c[GL_ZERO] += zero;
+    if let Err(m) = cmp_lcm(a, b, el) {
+        s.fail("lcm", T::NAME, &[za, zb], seq, T::IDX, m);
+    }
+}
+
+/// All pairs of values of T with magnitude <= the table range (the whole type for i8/u8).
+fn gcd_lcm_box<T: Ty>(tabs: &Tables) -> Stats {
+    let vals = box_vals::<T>(tabs.n as u128);
+    let n = vals.len();
+    (0..n)
+        .into_par_iter()
+        .map(|i| {
+            let mut s = Stats::new();
+            let a = vals[i];
+            let am = a.split().1;
+            for (j, &b) in vals.iter().enumerate() {
+                let bm = b.split().1;
+                gcd_lcm_case(&mut s, a, b, tabs.g(am, bm), Some(tabs.l(am, bm)), (i * n + j) as u64, true);
+            }
+            s
+        })
+        .reduce(Stats::new, Stats::merge)
+}
+
+fn fib(n: usize) -> u128 {
+    let (mut a, mut b) = (0u128, 1u128);
+    for _ in 0..n {
+        let t = a.wrapping_add(b); // the value one past the requested one may exceed u128; it is never returned
+        a = b;
+        b = t;
+    }
+    a
+}
+
+/// Boundary magnitudes: powers of two ± 2 at the width boundaries of every type, type maxima, Mersenne
+/// primes, products sharing a large prime factor, highly composite values, consecutive Fibonacci numbers
+/// (the longest Euclid runs).
+fn boundary_mags() -> Vec<u128> {
+    let mut v: Vec<u128> = vec![0, 1, 2, 3, 4, 6, 12, 255, 256, 300, 301, 720720];
+    for k in [7u32, 8, 15, 16, 20, 31, 32, 40, 53, 62, 63, 64, 100, 126, 127] {
+        let p = 1u128 << k;
+        for d in 0..=2u128 {
+            v.push(p - d);
+            v.push(p + d);
+        }
+        v.push(p / 2 * 3);
+    }
+    v.extend([u128::MAX, u128::MAX - 1, u128::MAX / 3, u128::MAX / 3 * 2]);
+    let m13 = (1u128 << 13) - 1;
+    let m17 = (1u128 << 17) - 1;
+    let m19 = (1u128 << 19) - 1;
+    let m31 = (1u128 << 31) - 1;
+    let m61 = (1u128 << 61) - 1;
+    let m89 = (1u128 << 89) - 1;
+    let m107 = (1u128 << 107) - 1;
+    v.extend([m13, m17, m19, m31, m61, m89, m107, m13 * 3, m13 * 4]);
+    v.extend([m31 * 2, m31 * 3, m31 * 6, m31 * m19, m31 * m17, m31 * m31, m31 * m31 * 2, m19 * m19, m19 * m17 * m13]);
+    v.extend([m61 * 3, m61 * 4, m61 * 6, m61 * m31, m61 * m61, m61 * m61 * 3, m61 * m19, m89 * m31, m107 * m19, m107 * m17]);
+    v.push((1..=20u128).product()); // 20!
+    v.push((1..=12u128).product());
+    v.push((1..=33u128).product());
+    v.extend([3u128.pow(10), 3u128.pow(20), 3u128.pow(39), 3u128.pow(40), 3u128.pow(80), 6u128.pow(24), 6u128.pow(48), 10u128.pow(18), 10u128.pow(38)]);
+    for n in [22usize, 23, 24, 45, 46, 47, 90, 91, 92, 93, 183, 184, 185, 186] {
+        v.push(fib(n));
+    }
+    v.sort();
+    v.dedup();
+    v
+}
+
+/// All pairs of boundary values of T (both signs), except those inside the table range.
+fn gcd_lcm_boundary<T: Ty>(boxn: u128) -> Stats {
+    let vals = signed_vals::<T>(&boundary_mags());
+    let n = vals.len();
+    (0..n)
+        .into_par_iter()
+        .map(|i| {
+            let mut s = Stats::new();
+            let a = vals[i];
+            let am = a.split().1;
+            for (j, &b) in vals.iter().enumerate() {
+                let bm = b.split().1;
+                if am <= boxn && bm <= boxn {
+                    continue; // covered by the box enumeration
+                }
+                s.c[GL_BIG] += 1;
+                gcd_lcm_case(&mut s, a, b, ref_gcd(am, bm), ref_lcm(am, bm), (i * n + j) as u64, true);
+            }
+            s
+        })
+        .reduce(Stats::new, Stats::merge)
+}
+
+/// Thorough: every pair of 16-bit values (MIN excluded for i16).  Reference row for a fixed |a| built
+/// from the definition: g[b] = the largest divisor of |a| that divides b.
+fn gcd_lcm_full16<T: Ty>() -> Stats {
+    let mm: u32 = if T::SIGNED { 32767 } else { 65535 };
+    (0..=mm)
+        .into_par_iter()
+        .map(|am| {
+            let mut s = Stats::new();
+            let mut row = vec![0u32; mm as usize + 1];
+            if am == 0 {
+                for b in 0..=mm {
+                    row[b as usize] = b;
+                }
+            } else {
+                for d in 1..=am {
+                    if am % d == 0 {
+                        let mut b = 0;
+                        while b <= mm {
+                            row[b as usize] = d;
+                            b += d;
+                        }
+                    }
+                }
+            }
+            let width = 2 * mm as u64 + 1;
+            for an in [false, true] {
+                if an && (!T::SIGNED || am == 0) {
+                    continue;
+                }
+                let a = T::make(an, am as u128).unwrap();
+                for bm in 0..=mm {
+                    let g = row[bm as usize];
+                    let l = if am == 0 || bm == 0 { 0 } else { (am / g) as u128 * bm as u128 };
+                    for bn in [false, true] {
+                        if bn && (!T::SIGNED || bm == 0) {
+                            continue;
+                        }
+                        let b = T::make(bn, bm as u128).unwrap();
+                        let seq = (2 * am as u64 + an as u64) * width + 2 * bm as u64 + bn as u64;
+                        gcd_lcm_case(&mut s, a, b, g as u128, Some(l), seq, false);
+                    }
+                }
+            }
+            s
+        })
+        .reduce(Stats::new, Stats::merge)
+}
+
+// ---------------------------------------------------------------------------------------------
+// egcd
+
+/// The property's domain: the mathematical intermediate values fit the type.  The coefficients and the
+/// products formed by the recursion are bounded by |c|·max(|a|,|b|); a factor 4 of slack is demanded.
+fn egcd_in_domain<T: Ty>(a: Z, b: Z, c: Z) -> bool {
+    let m = a.1.max(b.1).max(1);
+    match c.1.max(1).checked_mul(m).and_then(|v| v.checked_mul(4)) {
+        Some(v) => T::make(false, v).is_some(),
+        None => false,
+    }
+}
+
+fn egcd_case<T: Ty>(s: &mut Stats, a: T, b: T, c: T, g: u128, seq: u64) {
+    let (za, zb, zc) = (a.split(), b.split(), c.split());
+    if !egcd_in_domain::<T>(za, zb, zc) {
+        s.c[SK_INTER] += 1;
+        return;
+    }
+    let solvable = zc.1 % g == 0;
+    s.c[EGCD_EV] += 1;
+    s.c[NONTRIV] += nontrivial_pair(za.1, zb.1) as u64;
+    s.c[EG_NEG] += (za.0 || zb.0 || zc.0) as u64;
+    let zero_coeff = za.1 == 0 || zb.1 == 0;
+    if solvable {
+        s.c[EG_SOME] += 1;
+        s.c[EG_Z_SOME] += zero_coeff as u64;
+    } else {
+        s.c[EG_NONE] += 1;
+        s.c[EG_Z_NONE] += zero_coeff as u64;
+    }
+    if let Err(m) = cmp_egcd(a, b, c, g) {
+        s.fail("egcd", T::NAME, &[za, zb, zc], seq, T::IDX, m);
+    }
+}
+
+/// The full cube |a|,|b|,|c| <= n minus a = b = 0.
+fn egcd_cube<T: Ty>(tabs: &Tables, n: u128) -> Stats {
+    let vals = box_vals::<T>(n);
+    let k = vals.len();
+    (0..k)
+        .into_par_iter()
+        .map(|i| {
+            let mut s = Stats::new();
+            let a = vals[i];
+            let am = a.split().1;
+            for (j, &b) in vals.iter().enumerate() {
+                let bm = b.split().1;
+                if am == 0 && bm == 0 {
+                    continue; // outside the quantifier: (a, b) not both zero
+                }
+                let g = tabs.g(am, bm);
+                for (h, &c) in vals.iter().enumerate() {
+                    egcd_case(&mut s, a, b, c, g, ((i * k + j) * k + h) as u64);
+                }
+            }
+            s
+        })
+        .reduce(Stats::new, Stats::merge)
+}
+
+fn egcd_boundary_mags() -> Vec<u128> {
+    let mut v: Vec<u128> = vec![
+        0, 1, 2, 3, 5, 7, 40, 41, 80, 81, 1023, 1024, 1025, 65537, 317811, 514229, 832040, 524287, 524288, 524289, 531441, 720720, 746496, 786432,
+        917518, 983055, 999983, 1046529, 1047552, 1048573, 1048574, 1048575, 1048576,
+    ];
+    v.sort();
+    v.dedup();
+    v
+}
+
+/// All triples of boundary values (both signs) up to 2^20, except a = b = 0 and the triples inside the cube.
+fn egcd_boundary<T: Ty>(cube: u128) -> Stats {
+    let vals = signed_vals::<T>(&egcd_boundary_mags());
+    let k = vals.len();
+    (0..k)
+        .into_par_iter()
+        .map(|i| {
+            let mut s = Stats::new();
+            let a = vals[i];
+            let am = a.split().1;
+            for (j, &b) in vals.iter().enumerate() {
+                let bm = b.split().1;
+                if am == 0 && bm == 0 {
+                    continue;
+                }
+                let g = ref_gcd(am, bm);
+                for (h, &c) in vals.iter().enumerate() {
+                    if am <= cube && bm <= cube && c.split().1 <= cube {
+                        continue;
+                    }
+                    s.c[EG_BIG] += 1;
+                    egcd_case(&mut s, a, b, c, g, ((i * k + j) * k + h) as u64);
+                }
+            }
+            s
+        })
+        .reduce(Stats::new, Stats::merge)
+}
+
+// ---------------------------------------------------------------------------------------------
+// crt
+
+fn crt_in_domain<T: Ty>(m1: u128, m2: u128) -> bool {
+    let m = m1.max(m2);
+    match m.checked_mul(m).and_then(|v| v.checked_mul(4)) {
+        Some(v) => T::make(false, v).is_some(),
+        None => false,
+    }
+}
+
+#[allow(clippy::too_many_arguments)]
+fn crt_case<T: Ty + Neg<Output = T>>(s: &mut Stats, a1: u128, m1: u128, a2: u128, m2: u128, g: u128, l: u128, exact: Option<Option<u128>>, seq: u64) {
+    if !crt_in_domain::<T>(m1, m2) {
+        s.c[SK_INTER] += 1;
+        return;
+    }
+    let t = |v: u128| T::make(false, v).unwrap();
+    let diff = if a1 > a2 { a1 - a2 } else { a2 - a1 };
+    let compat = diff % g == 0;
+    s.c[CRT_EV] += 1;
+    s.c[NONTRIV] += nontrivial_pair(m1, m2) as u64;
+    s.c[CRT_NESTED] += (m1 % m2 == 0 || m2 % m1 == 0) as u64;
+    if compat {
+        s.c[CRT_SOME] += 1;
+        s.c[CRT_NONCOP] += (g > 1) as u64;
+        s.c[CRT_LAST] += (a1 + 1 == m1 && a2 + 1 == m2) as u64;
+    } else {
+        s.c[CRT_NONE] += 1;
+    }
+    if let Err(m) = cmp_crt(t(a1), t(m1), t(a2), t(m2), g, l, exact) {
+        s.fail("crt", T::NAME, &[(false, a1), (false, m1), (false, a2), (false, m2)], seq, T::IDX, m);
+    }
+}
+
+/// The reference for one pair of small moduli: sol[a1*m2 + a2] = the x in [0, l) with that pair of
+/// residues (u32::MAX = none).  Returns the number of residue pairs hit twice (must be 0).
+fn crt_table(m1: u128, m2: u128, l: u128) -> (Vec<u32>, u64) {
+    let mut sol = vec![u32::MAX; (m1 * m2) as usize];
+    let mut dup = 0;
+    for x in 0..l {
+        let idx = ((x % m1) * m2 + x % m2) as usize;
+        if sol[idx] != u32::MAX {
+            dup += 1;
+        }
+        sol[idx] = x as u32;
+    }
+    (sol, dup)
+}
+
+fn crt_small_ty<T: Ty + Neg<Output = T>>(s: &mut Stats, m1: u128, m2: u128, g: u128, l: u128, sol: &[u32], mmax: u128) {
+    for a1 in 0..m1 {
+        for a2 in 0..m2 {
+            let e = sol[(a1 * m2 + a2) as usize];
+            let exact = if e == u32::MAX { None } else { Some(e as u128) };
+            let seq = ((m1 * mmax + m2) * mmax + a1) * mmax + a2;
+            crt_case::<T>(s, a1, m1, a2, m2, g, l, Some(exact), seq as u64);
+        }
+    }
+}
+
+/// All 1 <= m1, m2 <= mmax with all reduced residues, on i64, i32 and i128.
+fn crt_small(tabs: &Tables, mmax: u128) -> Stats {
+    (1..=mmax as u64)
+        .into_par_iter()
+        .map(|m1| {
+            let m1 = m1 as u128;
+            let mut s = Stats::new();
+            for m2 in 1..=mmax {
+                let (g, l) = (tabs.g(m1, m2), tabs.l(m1, m2));
+                let (sol, dup) = crt_table(m1, m2, l);
+                s.c[REF_ERR] += dup;
+                // the reference must itself obey the compatibility criterion
+                for a1 in 0..m1 {
+                    for a2 in 0..m2 {
+                        let has = sol[(a1 * m2 + a2) as usize] != u32::MAX;
+                        let d = if a1 > a2 { a1 - a2 } else { a2 - a1 };
+                        if has != (d % g == 0) {
+                            s.c[REF_ERR] += 1;
+                        }
+                    }
+                }
+                crt_small_ty::<i64>(&mut s, m1, m2, g, l, &sol, mmax + 1);
+                crt_small_ty::<i32>(&mut s, m1, m2, g, l, &sol, mmax + 1);
+                crt_small_ty::<i128>(&mut s, m1, m2, g, l, &sol, mmax + 1);
+            }
+            s
+        })
+        .reduce(Stats::new, Stats::merge)
+}
+
+fn crt_boundary_moduli() -> Vec<u128> {
+    let mut v: Vec<u128> = vec![
+        1, 2, 3, 64, 65, 128, 129, 1023, 1024, 1025, 65536, 65537, 262144, 317811, 514229, 832040, 524287, 524288, 524289, 531441, 720720,
+        746496, 786432, 917518, 983055, 999983, 1046529, 1047552, 1048573, 1048574, 1048575, 1048576,
+    ];
+    v.sort();
+    v.dedup();
+    v
+}
+
+/// Ordered pairs of boundary moduli up to 2^20 (coprime, nested, equal, sharing a large factor), each with
+/// the residues {0,1,2,m-1,m-2,⌊m/2⌋,⌊m/2⌋+1,⌊m/3⌋}² plus the residues of the targets lcm-1, lcm-2, ⌊lcm/2⌋,
+/// ⌊lcm/3⌋, 1, m1, m2, max(m1,m2)+1 (compatible by construction).
+fn crt_boundary<T: Ty + Neg<Output = T>>(small: u128) -> Stats {
+    let ms = crt_boundary_moduli();
+    let k = ms.len();
+    let residues = |m: u128| -> Vec<u128> {
+        let mut r: Vec<u128> = vec![0, 1, 2, m.wrapping_sub(1), m.wrapping_sub(2), m / 2, m / 2 + 1, m / 3].into_iter().filter(|&x| x < m).collect();
+        r.sort();
+        r.dedup();
+        r
+    };
+    (0..k)
+        .into_par_iter()
+        .map(|i| {
+            let mut s = Stats::new();
+            let m1 = ms[i];
+            for (j, &m2) in ms.iter().enumerate() {
+                if m1 <= small && m2 <= small {
+                    continue; // covered by the exhaustive small enumeration
+                }
+                let g = ref_gcd(m1, m2);
+                let l = m1 / g * m2;
+                let mut pairs: BTreeSet<(u128, u128)> = BTreeSet::new();
+                for &a1 in &residues(m1) {
+                    for &a2 in &residues(m2) {
+                        pairs.insert((a1, a2));
+                    }
+                }
+                for t in [l.wrapping_sub(1), l.wrapping_sub(2), l / 2, l / 3, 1, m1, m2, m1.max(m2) + 1] {
+                    if t < l {
+                        pairs.insert((t % m1, t % m2));
+                    }
+                }
+                for (h, &(a1, a2)) in pairs.iter().enumerate() {
+                    s.c[CRT_BIG] += 1;
+                    crt_case::<T>(&mut s, a1, m1, a2, m2, g, l, None, ((i * k + j) * 128 + h) as u64);
+                }
+            }
+            s
+        })
+        .reduce(Stats::new, Stats::merge)
+}
+
+// ---------------------------------------------------------------------------------------------
+// plain re-execution of one recorded case
+
+fn one_gcd<T: Ty>(a: &[Z]) -> Result<(), String> {
+    let (x, y) = (mk::<T>(a[0]), mk::<T>(a[1]));
+    cmp_gcd(x, y, ref_gcd(a[0].1, a[1].1))
+}
+
+fn one_lcm<T: Ty>(a: &[Z]) -> Result<(), String> {
+    let (x, y) = (mk::<T>(a[0]), mk::<T>(a[1]));
+    if a[0].1 == 0 && a[1].1 == 0 {
+        return Ok(()); // out of domain
+    }
+    match ref_lcm(a[0].1, a[1].1) {
+        Some(l) if T::make(false, l).is_some() => cmp_lcm(x, y, l),
+        _ => Ok(()), // out of domain
+    }
+}
+
+fn one_egcd<T: Ty>(a: &[Z]) -> Result<(), String> {
+    if (a[0].1 == 0 && a[1].1 == 0) || !egcd_in_domain::<T>(a[0], a[1], a[2]) {
+        return Ok(()); // out of domain
+    }
+    cmp_egcd(mk::<T>(a[0]), mk::<T>(a[1]), mk::<T>(a[2]), ref_gcd(a[0].1, a[1].1))
+}
+
+fn one_crt<T: Ty + Neg<Output = T>>(a: &[Z]) -> Result<(), String> {
+    let (a1, m1, a2, m2) = (a[0].1, a[1].1, a[2].1, a[3].1);
+    if m1 == 0 || m2 == 0 || a1 >= m1 || a2 >= m2 || a.iter().any(|z| z.0) || !crt_in_domain::<T>(m1, m2) {
+        return Ok(()); // out of domain
+    }
+    let g = ref_gcd(m1, m2);
+    let l = m1 / g * m2;
+    let exact = if l <= 1 << 24 { Some((0..l).find(|x| x % m1 == a1 && x % m2 == a2)) } else { None };
+    cmp_crt(mk::<T>(a[0]), mk::<T>(a[1]), mk::<T>(a[2]), mk::<T>(a[3]), g, l, exact)
+}
+
+fn mk<T: Ty>(z: Z) -> T {
+    match T::make(z.0, z.1) {
+        Some(v) => v,
+        None => bad_replay(&format!("{} is not a value of {} (or is its excluded minimum)", zs(z), T::NAME)),
+    }
+}
+
+fn confirm(v: &Value) -> Result<(), String> {
+    let f = v["fn"].as_str().unwrap_or_else(|| bad_replay("no \"fn\""));
+    let ty = v["ty"].as_str().unwrap_or_else(|| bad_replay("no \"ty\""));
+    let args: Vec<Z> = v["args"]
+        .as_array()
+        .unwrap_or_else(|| bad_replay("no \"args\""))
+        .iter()
+        .map(|s| s.as_str().and_then(zparse).unwrap_or_else(|| bad_replay("operand is not a decimal string")))
+        .collect();
+    let want = match f {
+        "gcd" | "lcm" => 2,
+        "egcd" => 3,
+        "crt" => 4,
+        other => bad_replay(&format!("unknown function {other}")),
+    };
+    if args.len() != want {
+        bad_replay("wrong number of operands");
+    }
+    let a = &args[..];
+    match f {
+        "gcd" => dispatch_any!(ty, one_gcd, a),
+        "lcm" => dispatch_any!(ty, one_lcm, a),
+        "egcd" => dispatch_signed!(ty, one_egcd, a),
+        _ => dispatch_signed!(ty, one_crt, a),
+    }
+}
+
+// ---------------------------------------------------------------------------------------------
+
+fn reference_self_check(tabs: &Tables, run: &Run) {
+    let n = tabs.n as u128;
+    let bad: u64 = (0..=n)
+        .into_par_iter()
+        .map(|x| {
+            let mut bad = 0;
+            for y in 0..=n {
+                let (g, l) = (tabs.g(x, y), tabs.l(x, y));
+                // binary gcd agrees with the definition; g*l = x*y; symmetry; divisibility
+                if stein(x, y) != g || g * l != x * y && (x != 0 && y != 0) || tabs.g(y, x) != g || tabs.l(y, x) != l {
+                    bad += 1;
+                }
+                if g != 0 && (x % g != 0 || y % g != 0) {
+                    bad += 1;
+                }
+                if (x == 0 || y == 0) && l != 0 {
+                    bad += 1;
+                }
+            }
+            bad
+        })
+        .sum();
+    if bad != 0 {
+        run.machinery_failure(&format!("the reference tables are inconsistent in {bad} places"));
+    }
+    let m31 = (1u128 << 31) - 1;
+    let m61 = (1u128 << 61) - 1;
+    let known: &[(u128, u128, u128)] = &[
+        (fib(91), fib(92), 1),
+        (fib(185), fib(186), 1),
+        (m31 * 6, m31 * 4, m31 * 2),
+        (1 << 62, (1 << 40) * 3, 1 << 40),
+        (m61 * m31, m61 * 4, m61),
+        (m61 * m61, m61 * 3, m61),
+        (u128::MAX, u128::MAX - 1, 1),
+        ((1..=20u128).product(), 1 << 20, 1 << 18),
+        (0, 1 << 100, 1 << 100),
+        (65537 * 14, 65537 * 15, 65537),
+    ];
+    for &(x, y, g) in known {
+        if stein(x, y) != g || stein(y, x) != g {
+            run.machinery_failure(&format!("binary gcd reference gives {} for ({x}, {y}), known answer {g}", stein(x, y)));
+        }
+    }
+    let z = |v: i128| -> Z { (v < 0, v.unsigned_abs()) };
+    // exact linear-equation decision: both paths
+    let big = (false, 1u128 << 120);
+    if !lin_eq(z(6), z(-4), z(2), z(1), z(1)).0
+        || lin_eq(z(6), z(-4), z(3), z(1), z(1)).0
+        || !lin_eq(z(2), z(-1), z(0), big, (false, 1u128 << 121)).0
+        || lin_eq(z(2), z(-1), z(1), big, (false, 1u128 << 121)).0
+        || !lin_eq(z(3), z(5), z(-7), (true, (1u128 << 110) * 5 + 4), (false, (1u128 << 110) * 3 + 1)).0
+    {
+        run.machinery_failure("the exact a*x+b*y==c decision procedure is wrong on a known case");
+    }
+}
+
+fn timing(label: &str, run: &Run) {
+    if std::env::var("VERIF_TIMING").is_ok() {
+        eprintln!("[{:8.2}s] {label}", run.elapsed());
+    }
+}
+
+fn main() {
+    let args = Args::parse();
+    quiet_panics();
+    if args.replay.is_some() {
+        Run::replay_main(&args, &confirm);
+    }
+    let mut run = Run::new(&args, "gcd", "exploration");
+    let thorough = args.tier == Tier::Thorough;
+    const BOX: usize = 300;
+    let cube: u128 = args.tier.pick(40, 80);
+    let mmax: u128 = args.tier.pick(64, 128);
+
+    let tabs = Tables::build(BOX);
+    reference_self_check(&tabs, &run);
+    timing("reference tables", &run);
+
+    let mut tot = Stats::new();
+    macro_rules! each {
+        ($f:ident $args:tt ; $($t:ty),*) => { $( tot = tot.merge($f::<$t> $args); )* };
+    }
+
+    // gcd / lcm
+    each!(gcd_lcm_box(&tabs); i8, u8, i16, u16, i32, u32, i64, u64, i128, u128, isize, usize);
+    timing("gcd/lcm boxes", &run);
+    each!(gcd_lcm_boundary(BOX as u128); i16, u16, i32, u32, i64, u64, i128, u128, isize, usize);
+    timing("gcd/lcm boundary pairs", &run);
+    if thorough {
+        each!(gcd_lcm_full16(); u16, i16);
+        timing("gcd/lcm all 16-bit pairs", &run);
+    }
+    let gl_done = (tot.c[GCD_EV], tot.c[LCM_EV]);
+
+    // egcd
+    each!(egcd_cube(&tabs, cube); i64, i32, i128);
+    timing("egcd cube", &run);
+    each!(egcd_boundary(cube); i64);
+    timing("egcd boundary triples", &run);
+
+    // crt
+    tot = tot.merge(crt_small(&tabs, mmax));
+    timing("crt small moduli", &run);
+    each!(crt_boundary(mmax); i64, i128);
+    timing("crt boundary moduli", &run);
+
+    // ---- evidence
+    let evaluations = tot.c[GCD_EV] + tot.c[LCM_EV] + tot.c[EGCD_EV] + tot.c[CRT_EV];
+    let skipped = tot.c[SK_LCM_FIT] + tot.c[SK_LCM_00] + tot.c[SK_INTER];
+    run.cov("evaluations", evaluations);
+    run.cov("distinct_nontrivial", tot.c[NONTRIV]);
+    run.cov("skipped_out_of_domain", skipped);
+    for (i, name) in NAMES.iter().enumerate() {
+        if i != NONTRIV {
+            run.cov(name, tot.c[i]);
+        }
+    }
+    run.cov("distinct_gcd_values_expected", tot.gcd_seen.len() as u64);
+    run.cov("exhaustive", true);
+    run.cov(
+        "bounds",
+        json!({
+            "gcd_lcm_box": format!("all pairs with |a|,|b| <= {BOX} in i8,u8 (= every pair of the type, i8::MIN excluded),i16,u16,i32,u32,i64,u64,i128,u128,isize,usize"),
+            "gcd_lcm_boundary_magnitudes": boundary_mags().len(),
+            "gcd_lcm_all_16_bit_pairs": thorough,
+            "egcd_cube": format!("|a|,|b|,|c| <= {cube} minus a=b=0 on i64,i32,i128"),
+            "egcd_boundary_magnitudes_i64": egcd_boundary_mags().len(),
+            "crt_small": format!("1 <= m1,m2 <= {mmax}, all reduced residues, on i64,i32,i128"),
+            "crt_boundary_moduli_i64_i128": crt_boundary_moduli().len(),
+        }),
+    );
+    run.cov(
+        "rule",
+        "every (type, function, operands) tuple of the stated boxes and boundary sets is executed once on the real code, operands ordered 0,1,-1,2,-2,…; expected gcd/lcm come from tables built by the definitions (downward search for the largest common divisor, upward search for the smallest common multiple), CRT from the table x -> (x mod m1, x mod m2) over [0,lcm), boundary cases from a binary gcd plus direct verification (a*x+b*y==c exactly; 0<=x<lcm, x≡a1, x≡a2). A case is non-trivial when both principal operands ((a,b) resp. (m1,m2)) are non-zero and neither divides the other (the Euclidean recursion runs at least two remainder steps); distinct_nontrivial counts such executed tuples, which are distinct by construction (boundary enumerations omit what the boxes cover)",
+    );
+    let lcm00 = match catch(|| rlib_gcd::lcm(0i64, 0i64)) {
+        Ok(v) => format!("returns {v}"),
+        Err(p) => format!("panics ({p})"),
+    };
+    run.cov("lcm_zero_zero_observed", format!("lcm(0,0) is treated as out of domain (skipped, counted); the real code {lcm00}"));
+    run.assume("lcm(0,0) and egcd(0,0,c) are outside the property's domain; signed minimum values are excluded as the property says");
+    run.assume("'intermediate values fit the type' is taken as 4*|c|*max(|a|,|b|) <= T::MAX for egcd and 4*max(m1,m2)^2 <= T::MAX for crt (true for every enumerated case unless counted under skipped_intermediates_may_not_fit_type), and 'the lcm itself fits' for lcm");
+    run.assume("the harness is built with overflow checks off (release profile of the workspace), like a release build of rlib");
+
+    // ---- samples (VERIF_SEED only rotates which cases are written out)
+    {
+        let vals = box_vals::<i64>(BOX as u128);
+        let n = vals.len() as u64;
+        let pick = |k: u64| vals[((args.seed.wrapping_mul(7919).wrapping_add(k.wrapping_mul(104_729)).wrapping_add(12_345)) % n) as usize];
+        let (a, b) = (pick(1), pick(2));
+        let (am, bm) = (a.split().1, b.split().1);
+        run.sample(json!({"call": format!("gcd::<i64>({a}, {b})"), "expected": tabs.g(am, bm) as u64, "observed": format!("{:?}", catch(|| rlib_gcd::gcd(a, b)))}));
+        run.sample(json!({"call": format!("lcm::<i64>({a}, {b})"), "expected": tabs.l(am, bm) as u64, "observed": format!("{:?}", catch(|| rlib_gcd::lcm(a, b)))}));
+        let (a8, b8) = ((pick(3) % 128) as i8, (pick(4) % 128) as i8);
+        run.sample(json!({"call": format!("gcd::<i8>({a8}, {b8})"), "expected": tabs.g(a8.unsigned_abs() as u128, b8.unsigned_abs() as u128) as u64, "observed": format!("{:?}", catch(|| rlib_gcd::gcd(a8, b8)))}));
+        let (ea, eb, ec) = (pick(5) % 41, pick(6) % 41 + 41, pick(7) % 41);
+        let g = tabs.g(ea.unsigned_abs() as u128, eb.unsigned_abs() as u128) as i64;
+        run.sample(json!({"call": format!("egcd::<i64>({ea}, {eb}, {ec})"), "expected": if ec % g == 0 { format!("Some((x, y)) with a*x+b*y = {ec} (gcd {g})") } else { format!("None (gcd {g} does not divide c)") }, "observed": format!("{:?}", catch(|| rlib_gcd::egcd(ea, eb, ec)))}));
+        let (m1, m2) = (pick(8).abs() % 63 + 2, pick(9).abs() % 63 + 2);
+        let (a1, a2) = (pick(10).abs() % m1, pick(11).abs() % m2);
+        let exp = (0..m1 * m2).find(|x| x % m1 == a1 && x % m2 == a2);
+        run.sample(json!({"call": format!("crt::<i64>(a1={a1}, m1={m1}, a2={a2}, m2={m2})"), "expected": format!("{exp:?}"), "observed": format!("{:?}", catch(|| rlib_gcd::crt(a1, m1, a2, m2)))}));
+        let (bm1, bm2) = (983_055i64, 917_518i64); // share the factor 65537
+        let t = bm1 / 65_537 * bm2 - 1;
+        run.sample(json!({"call": format!("crt::<i64>(a1={}, m1={bm1}, a2={}, m2={bm2})", t % bm1, t % bm2), "expected": format!("Some({t}) = lcm - 1"), "observed": format!("{:?}", catch(|| rlib_gcd::crt(t % bm1, bm1, t % bm2, bm2)))}));
+        run.sample(json!({"call": "gcd::<i64>(F92, -F91) (consecutive Fibonacci numbers)", "expected": 1, "observed": format!("{:?}", catch(|| rlib_gcd::gcd(fib(92) as i64, -(fib(91) as i64))))}));
+    }
+
+    // ---- non-vacuity
+    if tot.c[REF_ERR] != 0 {
+        run.machinery_failure(&format!("the CRT reference tables are inconsistent in {} places", tot.c[REF_ERR]));
+    }
+    let c = &tot.c;
+    let i8_pairs = 255u64 * 255;
+    let checks: &[(&str, bool)] = &[
+        ("gcd ran on every pair of i8 and u8", gl_done.0 >= i8_pairs + 65_536),
+        ("lcm ran and some lcm cases were skipped because the result does not fit (i8/i16)", gl_done.1 > 100_000 && c[SK_LCM_FIT] > 10_000),
+        ("negative and zero operands of gcd/lcm were exercised", c[GL_NEG] > 100_000 && c[GL_ZERO] > 1_000),
+        ("boundary pairs beyond the box were exercised", c[GL_BIG] > 10_000),
+        ("more than 250 distinct gcd values were expected", tot.gcd_seen.len() > 250),
+        ("egcd had solvable and unsolvable cases", c[EG_SOME] > 10_000 && c[EG_NONE] > 10_000),
+        ("egcd had zero-coefficient cases of both kinds", c[EG_Z_SOME] > 100 && c[EG_Z_NONE] > 100),
+        ("egcd had negative operands and boundary triples", c[EG_NEG] > 10_000 && c[EG_BIG] > 10_000),
+        ("crt had compatible, incompatible, non-coprime-compatible, nested and lcm-1 cases", c[CRT_SOME] > 10_000 && c[CRT_NONE] > 10_000 && c[CRT_NONCOP] > 10_000 && c[CRT_NESTED] > 1_000 && c[CRT_LAST] > 1_000),
+        ("crt boundary moduli were exercised", c[CRT_BIG] > 10_000),
+        ("non-trivial cases dominate", c[NONTRIV] > evaluations / 4),
+    ];
+    for (what, ok) in checks {
+        if !ok {
+            run.machinery_failure(&format!("non-vacuity check failed: {what}"));
+        }
+    }
+
+    for (_, f) in std::mem::take(&mut tot.fails) {
+        run.violation(f.v);
+    }
+    run.finish(&confirm)
+}
